@@ -107,7 +107,7 @@ c.requires('jobs_window-is-None-or-a-number', lambda c: Or(c.a.jobs_window == NO
 c.modifies('queue', '$qmax', '$alive', 'jobs_window')
 c.ensures('queue-maxsize-is-the-window-size-or-0', lambda c: And(
     isa['Queue'](c.cur.f('queue', c.a.self)),
-    Not(c.pre.alive(c.cur.f('queue', c.a.self))),
+    Not(c.pre.alive(c.cur.f('queue', c.a.self))), c.cur.alive(c.cur.f('queue', c.a.self)),
     c.cur.f('$qmax', c.cur.f('queue', c.a.self)) ==
     If(c.a.jobs_window == NONE, 0, z3.ToInt(L.numval(c.a.jobs_window)))), props=['C07'])
 c.ensures('allocates-only-the-queue', lambda c: allocates_only(c.pre, c.cur, 'Queue'))
